@@ -131,3 +131,5 @@ func dirDigest(path string) string {
 var _ = bytes.Equal
 
 func b64u(b []byte) string { return base64.URLEncoding.EncodeToString(b) }
+
+func b64std(b []byte) string { return base64.StdEncoding.EncodeToString(b) }
